@@ -236,6 +236,24 @@ class Gen:
                 return "(%s.index(%s) if %s in %s else -1)" % (l, x, x, l)
             if k == 20:
                 return "len([x for x in %s if x %% 2 == 0])" % e(LI)
+            kk = r.randrange(9)
+            if kk == 0:
+                return "(%s + %s)[2]" % (e(TIS), e(TIS))
+            if kk == 1:
+                return "len(%s * (%s %% 3))" % (e(TIS), e(INT))
+            if kk == 2:
+                return "max(%s, %s, %s)" % (e(INT), e(INT), e(INT))
+            if kk == 3:
+                a, b, c = r.randint(-3, 5), r.randint(-3, 12), self.ch([1, 2, 3, -1, -2])
+                return "len(range(%d, %d, %d))" % (a, b, c)
+            if kk == 4:
+                return "(list(range(%d)) + [7])[%s %% 3]" % (r.randint(2, 6), e(INT))
+            if kk == 5:
+                return "len(%s.splitlines())" % e(STR)
+            if kk == 6:
+                return "min(%s + [%s], key=lambda x: -x)" % (e(LI), e(INT))
+            if kk == 7:
+                return "(1 if %s in range(%d, %d) else 0)" % (e(INT), r.randint(-2, 2), r.randint(3, 9))
             return "int(%s)" % self.qs(str(r.randint(-99, 99)))
         if ty == STR:
             k = r.randrange(20)
@@ -282,6 +300,17 @@ class Gen:
                 return '("%%x|%%o|%%s" %% (abs(%s), abs(%s), %s))' % (e(INT), e(INT), e(LI))
             if k == 18:
                 return "%s.%s(%s)" % (e(STR), self.ch(["removeprefix", "removesuffix", "strip", "lstrip", "rstrip"]), self.qs(self.ch(["a", "ab", "b", " "])))
+            kk = r.randrange(6)
+            if kk == 0:
+                return "%s.%s(%s)[%d]" % (e(STR), self.ch(["partition", "rpartition"]), self.qs(self.ch([",", "a", " ", "ab"])), r.randint(0, 2))
+            if kk == 1:
+                return '"{a}-{b}".format(a=%s, b=%s)' % (e(INT), e(STR))
+            if kk == 2:
+                return "min(%s, %s)" % (e(STR), e(STR))
+            if kk == 3:
+                return '"|".join(%s.splitlines())' % e(STR)
+            if kk == 4:
+                return '("%%s" %% %s)' % e(self.ch([INT, STR, LI]))
             return '"{0}{1}{0}".format(%s, %s)' % (e(STR), e(INT))
         if ty == BOOL:
             k = r.randrange(14)
@@ -345,6 +374,15 @@ class Gen:
                 return "[len(s) for s in %s]" % e(LS)
             if k == 16:
                 return "[i * v for i, v in enumerate(%s)]" % e(LI)
+            kk = r.randrange(5)
+            if kk == 0:
+                return "[a + b * c for a, b, c in zip(%s, %s, %s)]" % (e(LI), e(LI), e(LI))
+            if kk == 1:
+                return "[i + v for i, v in enumerate(%s, %d)]" % (e(LI), r.randint(-2, 5))
+            if kk == 2:
+                return "sorted(%s, key=abs)" % e(LI)
+            if kk == 3:
+                return "list(%s + (%s,))" % ("(1, 2)", e(INT))
             return "[a - b for a, b in zip(%s, %s)]" % (e(LI), e(LI))
         if ty == LS:
             k = r.randrange(10)
